@@ -369,6 +369,25 @@ func decompositions(c *mon.Ctx, cfg hcfg, rng *gen.Rng) {
 			return fmt.Sprintf("n=%d i=%d decomposition=%v root=%x want=%x proofLen=%d wantLen=%d numLeaves=%d", n, i, d, root, m.mth(0, n), len(ps), len(want), nl)
 		})
 	}
+	// the same on a root-only tree (SetIndex never called): any aligned block may come as a cached sub-tree,
+	// including the very first element pushed
+	runPlain := func(n int, m *mdl, d []piece, kind string) {
+		t := merkletree.New(h)
+		for _, p := range d {
+			if p.cached {
+				if err := t.PushSubTree(log2(p.hi-p.lo), m.mth(p.lo, p.hi)); err != nil {
+					c.Fail(L+"/PushSubTree/error/root-only-tree", "n=%d piece=%v err=%v decomposition=%v", n, p, err, d)
+					return
+				}
+			} else {
+				t.Push(m.leaves[p.lo])
+			}
+		}
+		root := t.Root()
+		c.Check("PushSubTree", L+"/"+kind+"/root-differs/root-only-tree", bytes.Equal(root, m.mth(0, n)), func() string {
+			return fmt.Sprintf("n=%d decomposition=%v root=%x want=%x", n, d, root, m.mth(0, n))
+		})
+	}
 	mk := func(n int) *mdl {
 		m := &mdl{h: cfg.newH(), memo: map[[2]int][]byte{}}
 		for k := 0; k < n; k++ {
@@ -391,6 +410,15 @@ func decompositions(c *mon.Ctx, cfg hcfg, rng *gen.Rng) {
 			}
 		}
 	}
+	for n := 1; n <= nExh; n++ {
+		m := mk(n)
+		ds := allDecomps(n, -1)
+		for _, d := range ds {
+			runPlain(n, m, d, "decomposition")
+			total++
+		}
+		c.Class(fmt.Sprintf("%s/decomp-exhaustive/n%d/root-only/%d", L, n, len(ds)))
+	}
 	c.AddExtra("decompositions_exhaustive", int64(total))
 	for k := 0; k < c.Pick(300, 3000); k++ {
 		n := nExh + 1 + rng.Intn(120)
@@ -398,6 +426,9 @@ func decompositions(c *mon.Ctx, cfg hcfg, rng *gen.Rng) {
 		m := mk(n)
 		d := randDecomp(rng, n, i)
 		run(n, i, m, d, "decomposition-seeded")
+		if k%3 == 0 {
+			runPlain(n, m, randDecomp(rng, n, -1), "decomposition-seeded")
+		}
 		c.Class(fmt.Sprintf("%s/decomp-seeded/n%d/pieces%d", L, n, len(d)))
 	}
 	// segmented readers
